@@ -26,7 +26,7 @@ ANCHORS = [("octave_mcp/core/emitter.py", "needs_quotes"), ("octave_mcp/core/emi
 
 # one representative of every lexer-significant class (property C04 quantifier) + multi-char atoms
 ALPHA = list("aZ0_.-/ \t\n\r\"\\:[],<>{}$#§→⊕⧺⇌∧∨@~|&+%=`;()") + ["\x01", "́", "\U0001F600", "é", "e", "1",
-                                                                   "true", "false", "null", "vs", "//", "::", "->", "<->", "==="]
+                                                                   "true", "false", "null", "vs", "//", "::", "->", "<->", "===", "True", "NULL"]
 POSITIONS = [("assign", "K"), ("assign", "PATTERN"), ("assign", "REGEX"), ("meta", "K"), ("nmeta", "K"), ("list1", "K"),
              ("list3", "K"), ("imap", "K"), ("imap", "PATTERN")]
 
@@ -174,6 +174,15 @@ def gen_cases(ctx):
     for v in (True, False, None):
         for pos, key in POSITIONS:
             cases.append((v, pos, key))
+    # words a reader could take for something else: every case variant of the literals / keywords, number look-alikes
+    words = set()
+    for w in ("true", "false", "null", "vs", "meta", "end", "octave", "nan", "inf", "infinity", "none", "yes", "no", "on", "off"):
+        words |= {w, w.upper(), w.capitalize(), w[0] + w[1:].upper(), w[:-1].upper() + w[-1]}
+    words |= {"e5", "1e5x", "0x10", "1_000", "E", "-e", "+1", "1.", ".5", "1e", "1e+", "00", "-0", "١٢", "²", "Ⅷ"}
+    for w in sorted(words):
+        for pos, key in POSITIONS:
+            cases.append(({"s": w}, pos, key))
+    ctx.count("lookalike_words", len(words))
     ctx.count("ints", len(ints)); ctx.count("floats", len(fl))
     return cases
 
@@ -208,7 +217,7 @@ def write_tool_cases(ctx, values):
 
 
 def run(ctx: vlib.Ctx):
-    ctx.rule = ("exhaustive strings of length <=2 over the 57-symbol class alphabet in 9 positions, length 3 in position assign/K "
+    ctx.rule = ("exhaustive strings of length <=2 over the 59-symbol class alphabet in 9 positions, length 3 in position assign/K "
                 "(all positions when thorough/widened), seeded random strings <=60 over all planes, ints of every size class to 4300 "
                 "digits, boundary + random finite floats, bools, null; distinct = distinct (value, position, key); non-trivial = all")
     ctx.translate(PROJECT)
